@@ -293,7 +293,8 @@ fn program(shapes: &[Shape]) -> String {
     }
     src += "fn main() {\n    let data: Value = serde_json::from_str(&std::fs::read_to_string(std::env::args().nth(1).unwrap()).unwrap()).unwrap();\n";
     for i in 0..shapes.len() {
-        src += &format!("    println!(\"{{}}\", json!({{\"shape\": {i}, \"result\": shape_{i}::run(&data[{i}])}}));\n");
+        // a panic while building / evaluating the derived timeline of a valid shape is reported for that shape
+        src += &format!("    match std::panic::catch_unwind(|| shape_{i}::run(&data[{i}])) {{ Ok(r) => println!(\"{{}}\", json!({{\"shape\": {i}, \"result\": r}})), Err(p) => println!(\"{{}}\", json!({{\"shape\": {i}, \"panic\": p.downcast_ref::<String>().cloned().or_else(|| p.downcast_ref::<&str>().map(|s| s.to_string())).unwrap_or_default()}})) }}\n");
     }
     src += "}\n";
     src
@@ -458,6 +459,10 @@ pub fn run_batch(shapes: &[Shape], name: &str, slot: usize) -> Vec<Outcome> {
         let Ok(v) = serde_json::from_str::<serde_json::Value>(l) else { continue };
         let i = v["shape"].as_u64().unwrap_or(0) as usize;
         seen += 1;
+        if let Some(msg) = v.get("panic") {
+            out.push(Outcome::Violation { check_case: serde_json::to_value(&shapes[i]).unwrap(), detail: format!("building or evaluating the derived timeline of a supported struct shape ({} fields, {} animated) panicked: {}", shapes[i].fields.len(), shapes[i].animated().len(), msg.as_str().unwrap_or("")) });
+            break;
+        }
         if let Err(e) = judge_shape(&shapes[i], &v["result"]) {
             out.push(Outcome::Violation { check_case: serde_json::to_value(&shapes[i]).unwrap(), detail: format!("shape {:?} (remote: {}): {e}", shapes[i].fields.iter().map(|f| format!("{}{}", if f.marked { "#[animate] " } else { "" }, f.ty.name())).collect::<Vec<_>>(), shapes[i].remote) });
             break;
